@@ -625,6 +625,59 @@ pub fn t_vftargs(a: &[i64]) -> Val {
     build_one(ps, &m)
 }
 
+// t_names: every position in which a description can mention a type name (C10: an undefined name in any of them ends the build with
+// an error; a build never succeeds with a reference dropped).
+//   module n: type X { y: u32 }                 (m imports n only when imports_n != 0)
+//   module m: type T1 { x: u32 }
+//             type T0 { f: K_field }            impl T0 { #[address(64)] pub fn g(&self, p: K_param) -> K_ret; }
+//             type V { vftable { pub fn v(&self, q: K_vparam) -> K_vret; } }
+//             enum E: K_enum { A }              extern ev: K_ev  @ 128
+// a = [ps, imports_n, k_field, k_enum, k_param, k_ret, k_vparam, k_vret, k_ev]
+//   kinds: 0 u32, 1 T1, 2 *const T1, 3 Nope (undefined), 4 *const Nope, 5 X (only visible with the import), 6 *const X; ret kinds: 7 = no return type
+fn name_kind(k: i64) -> T {
+    match k {
+        0 => T::ident("u32"),
+        1 => T::ident("T1"),
+        2 => T::ident("T1").const_pointer(),
+        3 => T::ident("Nope"),
+        4 => T::ident("Nope").const_pointer(),
+        5 => T::ident("X"),
+        _ => T::ident("X").const_pointer(),
+    }
+}
+pub fn t_names(a: &[i64]) -> Val {
+    let ps = a[0] as usize;
+    let mut g = F::new((V::Public, "g"), [Ar::ConstSelf, Ar::named("p", name_kind(a[4]))]).with_attributes([A::integer_fn("address", 64)]);
+    if a[5] != 7 {
+        g = g.with_return_type(name_kind(a[5]));
+    }
+    let mut v = F::new((V::Public, "v"), [Ar::ConstSelf, Ar::named("q", name_kind(a[6]))]);
+    if a[7] != 7 {
+        v = v.with_return_type(name_kind(a[7]));
+    }
+    let mut mm = M::new()
+        .with_definitions([
+            ID::new((V::Public, "T1"), TD::new([TS::field((V::Public, "x"), T::ident("u32"))])),
+            ID::new((V::Public, "T0"), TD::new([TS::field((V::Public, "f"), name_kind(a[2]))])),
+            ID::new((V::Public, "V"), TD::new([TS::vftable([v])])),
+            ID::new((V::Public, "E"), ED::new(name_kind(a[3]), [ES::field("A")], [])),
+        ])
+        .with_impls([FB::new("T0", [g])])
+        .with_extern_values([EV::new(V::Public, "ev", name_kind(a[8]), [A::integer_fn("address", 128)])]);
+    if a[1] != 0 {
+        mm = mm.with_uses([IP::from("n")]);
+    }
+    let mn = M::new().with_definitions([ID::new((V::Public, "X"), TD::new([TS::field((V::Public, "y"), T::ident("u32"))]))]);
+    let mut st = SemanticState::new(ps);
+    if let Err(e) = st.add_module(&mm, &IP::from("m")) {
+        return outcome(Err(e));
+    }
+    if let Err(e) = st.add_module(&mn, &IP::from("n")) {
+        return outcome(Err(e));
+    }
+    outcome(st.build())
+}
+
 // t_implname: impl block of T whose function names may already be taken (C05: every declared #[address] function is emitted, or the
 // description is rejected).
 //   type Bz { x: u32 }  impl Bz { #[address(256)] [pub] fn <bname>(&self) -> u32; }         (base_kind != 0)
@@ -1510,6 +1563,7 @@ pub const TEMPLATES: &[(&str, Template)] = &[
     ("t_enum", t_enum),
     ("t_impl", t_impl),
     ("t_implname", t_implname),
+    ("t_names", t_names),
     ("t_vftargs", t_vftargs),
     ("t_privbase", t_privbase),
     ("t_impl6", t_impl6),
